@@ -212,6 +212,67 @@ def run_cfg(run, cfg, seed, tier):
                 return
 
 
+def audit(run, s, blobs, where, what):
+    """every stored batch and every posterior() output of a sampler, re-derived from u"""
+    st = s.state
+    lens = {k: len(v) for k, v in st._history.items() if k in ("u", "x", "logl") or (blobs and k == "blobs")}
+    if len(set(lens.values())) != 1:
+        run.fail("fields-different-length", f"{where}: the histories of the record fields have different numbers of batches: {lens}", **what)
+        return False
+    for k in range(st.get_history_length()):
+        b = st._history["blobs"][k] if blobs else None
+        if not check_batch(run, st._history["u"][k], st._history["x"][k], st._history["logl"][k], b, f"{where}, history batch {k}", what):
+            return False
+    stored = {np.ascontiguousarray(r).tobytes() for batch in st._history["x"] for r in batch}
+    for (res, trim) in itertools.product([False, True], repeat=2):
+        out = s.posterior(resample=res, trim_importance_weights=trim, return_blobs=blobs, ess_trim=0.8, bins_trim=20)
+        x, l = out[0], out[2]
+        b = out[3] if blobs else None
+        for i in range(len(x)):
+            if Lval(x[i]) != l[i] or (b is not None and Lblob(x[i]) != b[i]):
+                run.fail("posterior-record-incoherent", f"{where}: posterior(resample={res}, trim={trim}) row {i}: logl/blob do not belong to x", **what)
+                return False
+            if np.ascontiguousarray(x[i]).tobytes() not in stored:
+                run.fail("posterior-record-incoherent", f"{where}: posterior(resample={res}, trim={trim}) row {i} is not a particle of the stored history", **what)
+                return False
+    return True
+
+
+def reuse_probe(run, tier, rng):
+    """One Sampler object used more than once: run() called again with a larger n_total; a checkpoint of ANOTHER run loaded into a
+    sampler that has already run (then queried, then resumed). Records must stay whole."""
+    import tempfile
+    from tempest import Sampler
+
+    def like(x):
+        return (Lval(x), Lblob(x))
+    CENTRE[0] = 0.0
+    for kind in ("tpcn", "rwm"):
+        d = tempfile.mkdtemp(prefix="c07_", dir=run.scratch.dir)
+        kw = dict(n_dim=2, n_particles=10, blobs_dtype=float, sample=kind, clustering=False)
+        what = dict(probe="sampler reuse", kernel=kind)
+        try:
+            a = Sampler(T, like, random_state=11, output_dir=d, output_label="a", **kw)
+            a.run(n_total=20, progress=False, save_every=1)
+            run.case(key=("reuse", kind, "second-run"), nontrivial=True)
+            a.run(n_total=45, progress=False)                       # the same object again, asking for more
+            if not audit(run, a, True, "after a second run() on the same Sampler", what):
+                continue
+            b = Sampler(T, like, random_state=12, **kw)
+            b.run(n_total=30, progress=False)
+            if kind == "rwm":
+                b.results()
+                b.posterior()
+            b.load_state(d + "/a_final.state")                      # a used sampler takes over another run's state
+            run.case(key=("reuse", kind, "load-into-used"), nontrivial=True)
+            if not audit(run, b, True, "after load_state() into a sampler that had already run", what):
+                continue
+            b.run(n_total=40, progress=False, resume_state_path=d + "/a_final.state")
+            audit(run, b, True, "after resuming in a sampler that had already run", what)
+        except Exception as e:
+            run.fail("run-raises", f"reuse scenario raised {type(e).__name__}: {e}", **what)
+
+
 def edge_planted(run, tier, rng):
     """Runs whose first prior batch contains particles within 1e-9 .. 1e-12 of the faces of the cube (planted through
     numpy.random.rand) and a target that gives them weight: every step must copy such records whole, bit for bit."""
@@ -299,6 +360,7 @@ def main(tier, seed):
     try:
         sweep(run, tier, rng)
         edge_planted(run, tier, rng)
+        reuse_probe(run, tier, rng)
     except Exception:
         import traceback
         run.broken.append(("harness-exception", traceback.format_exc()[-1500:]))
